@@ -5,6 +5,48 @@
 package scanner
 
 /*@
+// the source text and the scanner's configuration are fixed once the scanner exists
+immutable scanner.Scanner.src scanner.Scanner.mode scanner.Scanner.file []uint8
+
+spec srcEnd(s *Scanner) int := off(s.src) + len(s.src)
+// position bookkeeping: cur is inside the text and on a code point boundary of well-formed UTF-8
+spec J(s *Scanner) bool :=
+  s != nil && 0 <= s.start && s.start <= s.cur && s.cur <= len(s.src)
+  && utf8.validA(arr(s.src), off(s.src) + s.cur, srcEnd(s))
+spec curRune(s *Scanner) int := utf8.runeA(arr(s.src), off(s.src) + s.cur)
+spec curWidth(s *Scanner) int := utf8.widthA(arr(s.src), off(s.src) + s.cur)
+
+func (*Scanner).atEnd [C13, C03]
+  safe
+  requires s != nil
+  modifies nothing
+  ensures result == (s.cur >= len(s.src))
+
+func (*Scanner).peek [C13, C03]
+  safe
+  requires J(s)
+  modifies nothing
+  ensures s.cur >= len(s.src) ==> result == -1
+  ensures s.cur < len(s.src) ==> result == curRune(s)
+
+// two characters of lookahead: the code point after the current one, if there is one
+func (*Scanner).peekNext [C13, C03]
+  safe
+  requires J(s)
+  modifies nothing
+  ensures s.cur < len(s.src) && s.cur + curWidth(s) < len(s.src) ==>
+            result == utf8.runeA(arr(s.src), off(s.src) + s.cur + curWidth(s))
+  ensures !(s.cur < len(s.src) && s.cur + curWidth(s) < len(s.src)) ==> (result == -1 || result == 65533)
+
+func (*Scanner).advance [C13, C03]
+  safe
+  requires J(s) && s.cur < len(s.src)
+  modifies scanner.Scanner.cur, scanner.Scanner.column, scanner.Scanner.shouldIndent
+  ensures result == old(curRune(s))
+  ensures s.cur == old(s.cur) + old(curWidth(s)) && s.cur > old(s.cur)
+  ensures s.column == old(s.column) + 1
+  ensures J(s)
+
 // summary used by callers: scanning may report through the handler it was given and allocates the token slice
 func Scan
   trusted
